@@ -206,7 +206,7 @@ def main(argv=None):
 
 
 def finish(ctx, mod):
-    known = [k for k in load_known() if k.get("property") == ctx.prop]
+    known = [k for k in load_known() if ctx.prop in [k.get("property")] + list(k.get("also_properties", []))]
     open_known = {}
     for k in known:
         if k.get("status") == "open":
